@@ -56,7 +56,8 @@ var bothBackends = []string{"buf", "file"}
 var propSpecs = map[string]PropSpec{
 	"C01": {Profile: Profile{MaxCap: 8, MaxOps: 6, BigData: true, Backends: bothBackends, Rejects: 40, ObsReload: true, DetBias: 300},
 		Kinds: kinds("res", "hdr", "obj", "file", "rl", "shape"), Cases: [2]int{700, 12000}, Oracles: []string{"C01", "C08", "C02"},
-		Prop: "C01", Relabel: map[string]string{"C02:bystander-changed": "C01:earlier-object-changed"},
+		Prop: "C01", Relabel: map[string]string{"C02:bystander-changed": "C01:earlier-object-changed",
+			"C08:reload-fails": "C01:reload-fails", "C08:handle-vs-reload": "C01:reload-differs"},
 		Corr: "corr.C01.create_add_readback (model bytes and view vs library, every create/add)"},
 	"C02": {Profile: Profile{MaxCap: 6, MaxOps: 28, Backends: []string{"buf"}, Rejects: 220, DetBias: 350, FailReaders: true, Foreign: 250},
 		Kinds: kinds("res", "hdr", "obj", "shape"), Cases: [2]int{600, 10000}, Oracles: []string{"C02", "C01"},
